@@ -150,6 +150,7 @@ func c13RunInBubble(t *testing.T, c c13Case, res *vfResult) {
 	}
 	outUp := map[int]bool{}
 	inUp := map[int]bool{}
+	lastIP := map[int]int{}
 	afterOutClose, crossed, lateValidation := false, false, false
 	var openOrder []string
 	seq := uint64(300)
@@ -180,7 +181,12 @@ func c13RunInBubble(t *testing.T, c c13Case, res *vfResult) {
 			time.Sleep(1100 * time.Millisecond)
 		case "out+":
 			if !outUp[op.P] && !blacklisted[op.P] {
-				n.addPeer(op.P, pr, 0, nil)
+				// the peer may come back from another address (op.T picks one of two)
+				n.addPeer(op.P, pr, 0, []vfConnSpec{{Out: true, IP: fmt.Sprintf("10.%d.0.%d", 1+op.T, op.P), Stream: true}})
+				if lastIP[op.P] != 0 && lastIP[op.P] != 1+op.T {
+					res.label("reconnect-from-another-address")
+				}
+				lastIP[op.P] = 1 + op.T
 				outUp[op.P] = n.fakes[op.P].Up
 				openOrder = append(openOrder, fmt.Sprintf("out%d", op.P))
 			}
